@@ -10,8 +10,8 @@ import (
 
 // ---- generator ------------------------------------------------------------------------------------------------------
 //
-// quick: the small exhaustive universe (every tree of ≤ 2 files from a pool of 9 × 3 context loaders × one fixed lookup
-// list), ~60 random trees × 40 lookups, 300 smart-path ops; thorough: 2000 trees × 100 lookups, 6000 smart-path ops.
+// quick: the small exhaustive universe (every tree of ≤ 2 files from a pool of 10 × 3 context loaders × a fixed lookup
+// list and its reverse), ~60 random trees × 40 lookups, 300 smart-path ops; thorough: 2000 trees × 100 lookups, 6000 smart-path ops.
 
 var segPool = []string{"thing", "deep", "sub", "ta", "tb", "x1", "my_type", "ns"}
 var modPool = []string{"mymod", "other", "m3"}
@@ -55,7 +55,8 @@ func caseVariant(r *rand.Rand, n string) string {
 
 type genFile struct {
 	file
-	implied []string // lower-cased name segments the path implies (nil: not addressable)
+	implied  []string // lower-cased name segments the path implies (nil: not addressable)
+	misnamed bool     // the body declares another name than the path implies
 }
 
 func randFile(r *rand.Rand, mods []string) genFile {
@@ -139,7 +140,8 @@ func randFile(r *rand.Rand, mods []string) genFile {
 		g.body = body{kind: "bare"}
 	case k < 71:
 		other := capName(append(append([]string{}, implied[:len(implied)-1]...), segPool[r.Intn(len(segPool))]+"x"))
-		g.body = body{kind: "alias", name: other}
+		g.body = body{kind: []string{"alias", "object"}[r.Intn(2)], name: other}
+		g.misnamed = true
 	case k < 78:
 		g.body = body{kind: "malformed", line: 1 + r.Intn(6)}
 	case k < 81:
@@ -188,6 +190,32 @@ func randTree(r *rand.Rand, nLookups int) spec {
 			gfs = append(gfs, g)
 			s.files = append(s.files, g.file)
 		}
+	}
+	// a misnamed file declares: a name nobody has a file for (as generated), the name of ANOTHER file of the tree, or a
+	// sibling name without a file that the lookups will ask for
+	for i := range gfs {
+		if !gfs[i].misnamed {
+			continue
+		}
+		switch r.Intn(3) {
+		case 0:
+			var others []string
+			for j := range gfs {
+				if j != i && gfs[j].implied != nil && capName(gfs[j].implied) != capName(gfs[i].implied) {
+					others = append(others, capName(gfs[j].implied))
+				}
+			}
+			if len(others) > 0 {
+				gfs[i].body.name = others[r.Intn(len(others))]
+			}
+		case 1:
+			imp := gfs[i].implied
+			if imp == nil {
+				imp = []string{"ns", "x"}
+			}
+			gfs[i].body.name = capName(append(append([]string{}, imp[:len(imp)-1]...), segPool[r.Intn(len(segPool))]))
+		}
+		s.files[i].body = gfs[i].body
 	}
 	switch k := r.Intn(20); {
 	case len(s.mods) == 0 || k < 5:
@@ -254,6 +282,52 @@ func randTree(r *rand.Rand, nLookups int) spec {
 			s.lookups = append(s.lookups, lookup{op: "load", name: n})
 		}
 	}
+	// error-then-declared sequences: around the lookup that surfaces a defective file, the names that file DECLARES and
+	// names declared elsewhere are looked up, in both orders (an error lookup must not bind anything; a name without a
+	// file stays absent whatever happened before; a name with a file is answered from that file)
+	var declared []string
+	for _, g := range gfs {
+		switch g.body.kind {
+		case "alias", "object", "typeset":
+			declared = append(declared, g.body.name)
+		}
+	}
+	for _, g := range gfs {
+		if g.implied == nil {
+			continue
+		}
+		n := capName(g.implied)
+		var pats [][]string
+		switch g.body.kind {
+		case "alias", "object", "typeset":
+			if !g.misnamed {
+				continue
+			}
+			d := g.body.name
+			pats = [][]string{{n, d}, {d, n, d}, {n, d, n}}
+		case "malformed", "literal", "empty", "unreadable":
+			if len(declared) == 0 {
+				continue
+			}
+			d := declared[r.Intn(len(declared))]
+			pats = [][]string{{n, d, n}, {d, n, d}}
+		default:
+			continue
+		}
+		pat := pats[r.Intn(len(pats))]
+		ls := make([]lookup, len(pat))
+		for i, x := range pat {
+			if r.Intn(4) == 0 {
+				x = caseVariant(r, x)
+			}
+			ls[i] = lookup{op: "load", name: x}
+		}
+		at := 0
+		if r.Intn(2) == 0 && len(s.lookups) > 0 {
+			at = r.Intn(len(s.lookups))
+		}
+		s.lookups = append(append(append([]lookup{}, s.lookups[:at]...), ls...), s.lookups[at:]...)
+	}
 	return s
 }
 
@@ -268,24 +342,31 @@ var smallPool = []file{
 	{segs: []string{"modules", "mymod", "types", "sub.pp"}, body: body{kind: "typeset", name: "Mymod::Sub", types: []string{"Deep"}}},
 	{segs: []string{"modules", "other", "types", "thing.pp"}, body: body{kind: "bare"}},
 	{segs: []string{"modules", "mymod", "types", "ta.txt"}, body: body{kind: "alias", name: "Mymod::Ta"}},
+	{segs: []string{"modules", "mymod", "types", "wrong.pp"}, body: body{kind: "object", name: "Mymod::Thing"}},
 }
 
 var smallLookups = []string{"Thing", "thing", "Mymod::Thing", "MYMOD::THING", "Mymod", "Mymod::Ta", "Mymod::Deep", "Mymod::Sub::Deep",
-	"Mymod::Sub", "Mymod::Sub::Deep", "Other::Thing", "Mymod::Nope", "Thing::Nope", "Mymod::Thing", "Mymod::Ta", "Other", "Mymod::Init_typeset"}
+	"Mymod::Sub", "Mymod::Sub::Deep", "Other::Thing", "Mymod::Nope", "Thing::Nope", "Mymod::Wrong", "Mymod::Other", "Mymod::Thing", "Mymod::Ta",
+	"Other", "Mymod::Init_typeset"}
 
 func gen(g *core.G) {
 	emit := func(s spec) { g.Emit(s.String()) }
-	var ls []lookup
+	// two lookup lists: the fixed one and its reverse (every pair of names is asked in both orders)
+	var ls, rev []lookup
 	for _, n := range smallLookups {
 		ls = append(ls, lookup{op: "load", name: n})
+		rev = append([]lookup{{op: "load", name: n}}, rev...)
 	}
 	ls = append(ls, lookup{op: "has", name: "Mymod::Thing"}, lookup{op: "discover"})
+	rev = append(rev, lookup{op: "has", name: "Mymod::Thing"}, lookup{op: "discover"})
 	for _, via := range []string{"g", "d", "m:mymod"} {
-		emit(spec{mods: []string{"mymod", "other"}, via: via, lookups: ls})
-		for i := range smallPool {
-			emit(spec{mods: []string{"mymod", "other"}, files: []file{smallPool[i]}, via: via, lookups: ls})
-			for j := i + 1; j < len(smallPool); j++ {
-				emit(spec{mods: []string{"mymod", "other"}, files: []file{smallPool[i], smallPool[j]}, via: via, lookups: ls})
+		for _, lk := range [][]lookup{ls, rev} {
+			emit(spec{mods: []string{"mymod", "other"}, via: via, lookups: lk})
+			for i := range smallPool {
+				emit(spec{mods: []string{"mymod", "other"}, files: []file{smallPool[i]}, via: via, lookups: lk})
+				for j := i + 1; j < len(smallPool); j++ {
+					emit(spec{mods: []string{"mymod", "other"}, files: []file{smallPool[i], smallPool[j]}, via: via, lookups: lk})
+				}
 			}
 		}
 	}
@@ -295,6 +376,10 @@ func gen(g *core.G) {
 	}
 	for i := 0; i < trees; i++ {
 		emit(randTree(g.Rng, lookups))
+	}
+	// implementation-only: the same kind of tree judged with the demands the known findings fail
+	for i := 0; i < trees/4; i++ {
+		g.Emit("@strict" + strings.TrimPrefix(randTree(g.Rng, lookups/2).String(), "tree"))
 	}
 	// implementation-only: the same kind of tree looked at from forked contexts (a fresh child loader per lookup)
 	for i := 0; i < trees/6; i++ {
